@@ -213,7 +213,13 @@ def search(ctx):
         {"args": ["--codemod-include", "foo(*,pixee:python/use-generator"], "incl": ["foo(*", "pixee:python/use-generator"], "excl": []},
         {"args": ["--codemod-include", "pixee:python/use-generator,pixee:python/use-generator"], "incl": ["pixee:python/use-generator"], "excl": []},
         {"args": [], "incl": [], "excl": []},
+        # empty entries of the comma-separated value are unknown ids (ignored with a warning), not "no include list"
+        {"args": ["--codemod-include="], "incl": [""], "excl": []},
+        {"args": ["--codemod-include=,,"], "incl": [""], "excl": []},
+        {"args": ["--codemod-include=,pixee:python/use-generator,"], "incl": ["", "pixee:python/use-generator"], "excl": []},
+        {"args": ["--codemod-exclude=,pixee:python/use-generator,"], "incl": [], "excl": ["", "pixee:python/use-generator"]},
     ]
+    fixed = len(cases)
     for _ in range(ctx.pick(10, 60)):
         if rng.random() < 0.6:
             incl = gen_patterns(rng, ids, rng.randint(1, 3))
@@ -221,7 +227,7 @@ def search(ctx):
         else:
             excl = gen_patterns(rng, ids, rng.randint(1, 3))
             cases.append({"args": ["--codemod-exclude", ",".join(excl)], "incl": [], "excl": list(dict.fromkeys(excl))})
-    cases = [c for c in cases if not any("," in p or p == "" for p in c["incl"] + c["excl"])]
+    cases = cases[:fixed] + [c for c in cases[fixed:] if not any("," in p or p == "" for p in c["incl"] + c["excl"])]
     res = impl.pool_map(cli_case, cases)
     for c, r in zip(cases, res):
         if r[0] != "ok":
